@@ -401,6 +401,9 @@ func schedCfg(sc Scen, branchAll bool) qsched.Config {
 		cfg.Branch = nil
 	} else {
 		cfg.Branch = map[qsched.Kind]bool{qsched.KHTTP: true, qsched.KStart: true}
+		if sc.LogPoints {
+			cfg.Branch[qsched.KYield] = true
+		}
 		if sc.CopyLocks {
 			cfg.Branch[qsched.KLock] = true
 			cfg.BranchCaller = func(fn string) bool { return strings.HasPrefix(fn, "github.com/regclient/regclient.") }
